@@ -8,9 +8,9 @@ CASES = [
     ("C01", "TraceProps.tla", r'("e":"Return".*"op":"create".*)"succ":true=>\1"succ":false', "a successful create reported as failed"),
     ("C02", "TraceProps.tla", r'("e":"Return".*)"hdr":(\d+)(.*"succ":true)=>\g<1>"hdr":1\3', "a response header lowered to 1"),
     ("C03", "TraceProps.tla", r'("e":"RReturn".*)"kvs":\[\[[^\]]*\]=>\1"kvs":[[1,1,"zz"]', "first key-value of a read replaced"),
-    ("C05", "TraceProps.tla", r'("e":"Recv".*)"rev":(\d+)=>\g<1>"rev":1', "a delivered event's revision"),
-    ("C07", "TraceProps.tla", r'("e":"Del".*)"r":1,=>\1"r":9,', "the revision a compaction delete removed"),
-    ("C10", "TraceCoder.tla", r'"ok":true=>"ok":false', "a coder evaluation result"),
+    ("C05", "TraceProps.tla", r'("e":"Recv","evs":\[\["[A-Z]+",\d+,)(\d+)=>\g<1>1', "a delivered event's revision"),
+    ("C07", "TraceProps.tla", r'("e":"RReturn".*)"kvs":\[\[[^\]]*\]=>\1"kvs":[[1,1,"zz"]', "first key-value of a read after a compaction"),
+    ("C10", "TraceCoder.tla", r'"dok":true=>"dok":false', "a decode result"),
     ("C11", "TraceStorage.tla", r'("e":"SCommit".*)"res":"ok"=>\1"res":"cas"', "an engine commit result"),
     ("C12", "TraceAgree.tla", r'("e":"Resp".*"eng":"badger".*)"r":"=>\1"r":"x', "one transcript line of one engine"),
     ("C14", "TraceElection.tla", r'("e":"LUpdate".*)"ok":true=>\1"ok":false', "a lock update result"),
